@@ -95,6 +95,14 @@ def pause_ladder(chk: Check) -> None:
     cfg = ff.cfg
     imm = calls_in_func(pause, '_do_pause')
     chk.ob('GUARD-pause-ladder', pause, len(imm) >= 1, 'pause() pauses immediately when no step is in flight', kind='immediate-site-present')
+    # the step in flight is interrupted THERE AND THEN, by a direct call: put off to a later loop callback, the interruption meets whatever wake-up arrived in between
+    # (the waiting future is done: the resume value is dropped, or the awaitable's completion raises InvalidStateError in the loop) and the process sleeps for good
+    pv = prog.view(pause)
+    handed_on = [n for n in ast.walk(pv.node) if isinstance(n, ast.Attribute) and n.attr == 'interrupt' and norm(n.value) in ('self._state', 'self.state')
+                 and not any(isinstance(c, ast.Call) and c.func is n for c in ast.walk(pv.node))]
+    direct = [c for c in calls_in_func(pv, 'interrupt') if norm(c.func) == 'self._state.interrupt']
+    chk.ob('GUARD-pause-ladder', pause, len(direct) == 1 and not handed_on, 'the deferred pause interrupts the running state by a direct call (not scheduled for later)',
+           node=handed_on[0] if handed_on else None, kind='deferred:interrupts-at-once')
     for c in imm:
         for n, fs in ff.site_facts(c):
             chk.ob('GUARD-pause-ladder', pause, is_none(fs, PAUSED), 'the immediate pause runs only when not already paused (a second on_paused would '
